@@ -69,7 +69,8 @@ Definition removeEntry (s : store) (id reason now : Z) : store * list Z :=
   match get_ent s id with
   | None => (s, [])
   | Some e =>
-    if (reason =? reasonEXPIRED) && (now <? sexpire e) then
+    if (reason =? reasonEXPIRED) && (sexpire e =? 0) then (s, [])   (* the deadline was dropped meanwhile *)
+    else if (reason =? reasonEXPIRED) && (now <? sexpire e) then
       (* still alive: the wheel already unlinked it, put it back *)
       (set_whl s (schedule (whl s) id (sexpire e)), [])
     else
@@ -113,11 +114,13 @@ Definition sinkWrite (s : store) (it : witem) (now a0 rnd : Z) : store * list Z 
         remove_all (set_pol s p') ev reasonEVICTED now []
     else if wcode it =? cREMOVE then removeEntry s (wsid it) reasonREMOVED now
     else if wcode it =? cUPDATE then
-      if wresched it && (sexpire e <=? now) then removeEntry s (wsid it) reasonEXPIRED now
+      if wresched it && negb (sexpire e =? 0) && (sexpire e <=? now) then removeEntry s (wsid it) reasonEXPIRED now
       else
+        let s := if wresched it && (sexpire e =? 0) && scheduled (whl s) (wsid it)
+                 then set_whl s (deschedule (whl s) (wsid it)) else s in
         let w := s64 (spw e + wcost it) in
         let s := upd_ent s (wsid it) (fun e => e_pw e w) in
-        let s := if wresched it then set_whl s (schedule (whl s) (wsid it) (sexpire e)) else s in
+        let s := if wresched it && negb (sexpire e =? 0) then set_whl s (schedule (whl s) (wsid it) (sexpire e)) else s in
         if negb (tracked s (wsid it)) then (s, [])
         else if wcost it =? 0 then (s, [])
         else
@@ -191,14 +194,14 @@ Definition send (s : store) (it : witem) : store := set_queue s (queue s ++ [it]
 
 (* setShardWithoutLock + toPolicy; dk = doorkeeper verdict for a new key (true: pass).
    Returns the state, Set's return value, and whether the write took effect. *)
-Definition set_section (s : store) (k v cost expire h : Z) (dk nvm : bool) : store * bool * bool :=
+Definition set_section (s : store) (k v cost expire now h : Z) (dk nvm : bool) : store * bool * bool :=
   if sclosed s then (s, true, false) else
   match map_get (smap s) k with
   | Some id =>
       match get_ent s id with
       | None => (s, true, false)
       | Some e =>
-          let '(ex, resched) := updateExpire (sexpire e) expire in
+          let '(ex, resched) := updateExpire (sexpire e) expire now in
           let s := upd_ent s id (fun e => e_weight (e_val (e_expire e ex) v) cost) in
           (send s (mkW cUPDATE id (s64 (cost - sweight e)) resched false h), true, true)
       end
@@ -214,7 +217,7 @@ Definition set_section (s : store) (k v cost expire h : Z) (dk nvm : bool) : sto
 Definition sset3 (s : store) (k v cost ttl now h : Z) (dk : bool) : store * bool * bool :=
   let cost := if cost =? 0 then 1 else cost in
   if s64 (scap s) <? cost then (s, false, false) else
-  set_section s k v cost (setExpire now ttl) h dk false.
+  set_section s k v cost (setExpire now ttl) now h dk false.
 
 Definition sset (s : store) (k v cost ttl now h : Z) (dk : bool) : store * list Z :=
   let '(s', ok, _) := sset3 s k v cost ttl now h dk in (s', [b2z ok]).
@@ -237,7 +240,7 @@ Definition sload3 (s : store) (k now a0 h : Z) (err : bool) (v cost ttl : Z) (dk
       let expire := setExpire now ttl in
       let cost := if cost =? 0 then 1 else cost in
       if s64 (scap s) <? cost then (s, [0; v], false)
-      else let '(s', _, st) := set_section s k v cost expire h dk false in (s', [0; v], st)
+      else let '(s', _, st) := set_section s k v cost expire now h dk false in (s', [0; v], st)
   end.
 Definition sload (s : store) (k now a0 h : Z) (err : bool) (v cost ttl : Z) (dk : bool) : store * list Z :=
   let '(s', o, _) := sload3 s k now a0 h err v cost ttl dk in (s', o).
